@@ -126,6 +126,7 @@ func (t *Struct) genRawFree() (ret []fn_offset_pair) {
 func (t *Struct) OnFree() int {
 	var f Function
 	f.InternalName = "$" + GenSymbolName(t.Named()) + ".$$OnFree"
+	VerifEvent("use", currentModule)
 
 	if i := currentModule.findTableElem(f.InternalName); i != 0 {
 		return i
